@@ -375,9 +375,10 @@ def assemble_window(toks, start, n, donor, ids, tail_kept, trailing):
 
 
 # ------------------------------------------------------------------------------------- long inputs
-def long_shapes():
+def long_shapes(n0=1000):
     """name -> (function(ntokens) -> text).  Repetitive inputs whose token count scales; block
-    nesting is limited by the grammar, expression nesting and operator chains stay <= 100."""
+    nesting is limited by the grammar, expression nesting and operator chains stay <= 100.
+    n0 = smallest size of the measured range (only used to size the string in one shape)."""
     def per(unit, k, head="", foot=""):
         return lambda n: head + unit * max(1, n // k) + foot
     chain = "(" + " AND ".join(['[a] = %d' % i for i in range(100)]) + ")"          # 99 operators
@@ -401,8 +402,9 @@ def long_shapes():
         "longstring": lambda n: 'MAP NAME "' + "x" * (6 * n) + '" END\n',
         "string-escapes": lambda n: 'MAP NAME "' + '\\"' * (3 * n) + '" END\n',
         "regexes": per("CLASS EXPRESSION /abc/ END\n", 4, "LAYER\n", "END\n"),
-        # a regular expression that starts with '*': the lexer first tries the C comment terminal
-        "regex-leading-star": per('CLASS EXPRESSION /*abc/ NAME "%s" END\n' % ("x" * 500), 6, "LAYER\n", "END\n"),
+        # a regular expression that starts with '*' ("/*" outside a comment): the lexer first tries the
+        # C comment terminal, which scans to the end of the text for "*/" every time
+        "regex-leading-star": per('CLASS EXPRESSION /*abc/ NAME "%s" END\n' % ("x" * max(40, 190000 // n0)), 6, "LAYER\n", "END\n"),
         "unterminated-string": lambda n: "MAP " + 'NAME "x" ' * (n // 2) + '"' + "y" * n,
         "unterminated-ccomment": lambda n: "MAP " + 'NAME "x" ' * (n // 2) + "/* " + "y " * n,
         "error-at-end": lambda n: "MAP\n" + 'NAME "x"\n' * (n // 2) + "@",
@@ -423,7 +425,9 @@ def time_shape(job):
     if not _W:
         worker_init()
     name, sizes, reps, factor = job
-    fn = long_shapes()[name]
+    fn = long_shapes(sizes[0])[name]
+    for _ in range(3):      # warm-up (lazy initialisation inside lark)
+        run_text(fn(sizes[0]), "", False, limit=60.0)
     pts = []
     killed = False
     base = None
@@ -431,8 +435,21 @@ def time_shape(job):
         text = fn(n)
         best = wall = kind = None
         budget = 900.0 if base is None else max(2.0, factor * base * (n / float(sizes[0])) * 1.02)
-        tries = reps if n == sizes[0] else 1
-        i = 0
+        if base is None:
+            # CPU clocks tick at ~4 ms here: repeat the short call until >= 0.25 s of CPU time has been spent
+            k = 0
+            c0 = time.process_time()
+            w0 = time.perf_counter()
+            while k < 400 and (k < reps or time.process_time() - c0 < 0.25):
+                out, _ev = run_text(text, "", False, limit=budget, cpu=True)
+                k += 1
+            best = (time.process_time() - c0) / k
+            wall = (time.perf_counter() - w0) / k
+            kind = out["kind"] if out["kind"] != "other" else "other:" + out["exc"]
+            base = max(best, 1e-4)
+            pts.append((n, len(text), best, wall, kind))
+            continue
+        tries, i = 1, 0
         while i < tries:
             i += 1
             out, _ev = run_text(text, "", False, limit=budget, cpu=True)
@@ -443,11 +460,9 @@ def time_shape(job):
             if best is None or out["cpu"] < best:
                 best, wall = out["cpu"], out["t"]
             kind = out["kind"] if out["kind"] != "other" else "other:" + out["exc"]
-            if base is not None and i == tries and tries < 3 and best > (factor / 2.0) * base * (n / float(sizes[0])):
-                tries += 1
+            if i == tries and tries < 3 and best > (factor / 2.0) * base * (n / float(sizes[0])):
+                tries += 1          # suspicious but finished: measure again, keep the minimum
         pts.append((n, len(text), best, wall, kind))
-        if base is None:
-            base = max(best, 2e-4)
         if killed:
             break
     return {"name": name, "points": pts, "killed": killed}
@@ -536,6 +551,7 @@ def class_batch(job):
     traces = []
     roots_ok = set()
     n = 0
+    cpu0 = time.process_time()
     h = _crc(tag)
     for idx in range(job["lo"], job["hi"]):
         item = data[idx]
@@ -567,7 +583,7 @@ def class_batch(job):
             if ev is not None:
                 traces.append((ev[:80], {k2: out[k2] for k2 in ("ev", "kind", "syntax", "haspos", "line", "col", "nlines", "isdict")},
                                v[0] if v else None, text if len(text) < 400 else None, opt))
-    return {"n": n, "counts": counts, "bad": bad, "traces": traces, "roots_ok": roots_ok}
+    return {"n": n, "counts": counts, "bad": bad, "traces": traces, "roots_ok": roots_ok, "cpu": time.process_time() - cpu0}
 
 
 def window_batch(job):
@@ -585,6 +601,7 @@ def window_batch(job):
     bad = []
     traces = []
     n = 0
+    cpu0 = time.process_time()
     for idx in range(job["lo"], job["hi"]):
         beh = data[idx]
         di, start, dj, dstart = plan[idx]
@@ -605,4 +622,4 @@ def window_batch(job):
         if ev is not None:
             traces.append((ev[:80], {k2: out[k2] for k2 in ("ev", "kind", "syntax", "haspos", "line", "col", "nlines", "isdict")},
                            v[0] if v else None, None, opt))
-    return {"n": n, "counts": counts, "bad": bad, "traces": traces, "roots_ok": set()}
+    return {"n": n, "counts": counts, "bad": bad, "traces": traces, "roots_ok": set(), "cpu": time.process_time() - cpu0}
